@@ -22,7 +22,9 @@ func init() {
 
 func runC19(p *Prog, r *Report) {
 	r.Min("C19.R1", 4)
-	r.Min("C19.R3", 5)
+	r.Min("C19.R3", 5+1)
+	// the rescan interval handed to the live stage is the --live value as written
+	checkFlagFieldsReadOnly(p, r, "C19.R3", func(fr FlagReg) bool { return fr.Name == "live" })
 	// the live generator: RequestGenerator implementer whose goroutine re-invokes the delegate inside its loop
 	var lives []*ssa.Function
 	for _, fn := range p.Implementers(modPath+"/pkg/scan", "RequestGenerator", "GenerateRequests") {
